@@ -56,11 +56,12 @@ def main(ctx, replay=None):
         idx = rng.permutation(len(cand))[:per]
         # always include the smallest sufficient sets
         small = sorted(range(len(cand)), key=lambda i: len(cand[i]))[:3]
-        for ci in list(dict.fromkeys(list(small) + [int(i) for i in idx])):
-            S = cand[ci]
+        full21 = frozenset(range(1, 22))                      # every component supplied, the vanishing ones as zeros
+        for ci in [-1] + list(dict.fromkeys(list(small) + [int(i) for i in idx])):
+            S = full21 if ci == -1 else cand[ci]
             nrows = int(rng.integers(1, 4))
             rows = [tensors[r] for r in rng.permutation(3)[:nrows]]
-            with_zero_col = rng.random() < 0.3 and len(e["vanishing"]) > 0
+            with_zero_col = ci != -1 and rng.random() < 0.3 and len(e["vanishing"]) > 0
             cols = sorted(S)
             if with_zero_col:
                 cols = cols + [int(rng.choice(sorted(e["vanishing"])))]
@@ -113,7 +114,7 @@ def elast_data_path(ctx, exports, suff, rng):
         for i, t in enumerate(tensors):
             exp = {c_(SYMS[n][1:]): float(t[n]) for n in range(21) if any(tt[n] != 0 for tt in tensors)}
             got = dict(data.volumes[i].static_elastic_modulus)
-            if set(got) != set(exp) or any(abs(got[k] - exp[k]) > 1e-9 * 100 for k in exp) or data.volumes[i].volume != 100.0 - 5 * i:
+            if set(got) != set(exp) or any(not abs(got[k] - exp[k]) <= 1e-9 * 100 for k in exp) or data.volumes[i].volume != 100.0 - 5 * i:
                 ctx.violation(f"{s}: apply_symetry_on_elast_data row {i} differs from the invariant tensor",
                               {"system": s, "got": {str(k): v for k, v in got.items()}}, {"system": s, "clause": "elast_data_value"})
                 break
